@@ -32,6 +32,7 @@ type LoopInfo struct {
 	Body    map[*ssa.BasicBlock]bool
 	Ordinal int // 1-based, source order
 	Pos     token.Pos
+	End     token.Pos
 	Back    []*ssa.BasicBlock // sources of back edges
 	// filled during execution
 	pre      *State
@@ -79,6 +80,7 @@ type VC struct {
 	results  []retRec
 	lets     map[string]Val
 	specDepth int
+	quants []*quantRec
 	lastPos token.Pos
 	specQuant bool
 	readSites []string
@@ -134,6 +136,7 @@ func (vc *VC) reset() {
 	vc.results = nil
 	vc.notes = nil
 	vc.lets = map[string]Val{}
+	vc.quants = nil
 	for _, l := range vc.loopList {
 		l.pre, l.hdr, l.hdrLocal, l.hdrHeap, l.variant, l.backSts = nil, nil, nil, nil, nil, nil
 	}
@@ -438,10 +441,15 @@ func (vc *VC) strLit(s string) string {
 		}
 	}
 	// distinct literals are distinct ids
+	var others []string
 	for o, oc := range vc.strLits {
 		if o != s {
-			facts = append(facts, Ne(c, oc))
+			others = append(others, oc)
 		}
+	}
+	sort.Strings(others)
+	for _, oc := range others {
+		facts = append(facts, Ne(c, oc))
 	}
 	vc.asserts = append(vc.asserts, And(facts...))
 	return c
@@ -528,7 +536,8 @@ func (vc *VC) mergeStates(label string, sts []*State) *State {
 	out := &State{locals: map[*ssa.Alloc]Val{}, heap: map[string]string{}}
 	out.pc = vc.forceName("pc_"+label, "Bool", Or(conds...))
 	// locals present in every predecessor
-	for k, v0 := range sts[0].locals {
+	for _, k := range sortedAllocs(sts[0].locals) {
+		v0 := sts[0].locals[k]
 		vs := []Val{v0}
 		ok := true
 		for _, s := range sts[1:] {
@@ -696,6 +705,7 @@ func (vc *VC) findLoops() error {
 			return fmt.Errorf("cannot match a natural loop (header block %d) to a for statement", li.Header.Index)
 		}
 		li.Pos = best.Pos()
+		li.End = best.End()
 		for i, s := range stmts {
 			if s == best {
 				li.Ordinal = i + 1
